@@ -96,12 +96,17 @@ func c18InlineJWKS(id int) json.RawMessage { return c18JWKSBody(id, 0) }
 type c18DcrReg struct {
 	ID    string
 	Token string
+	// clients registered by c18OpDcrRegister (suite_c18_authn.go): how they authenticate, the secret the
+	// registration answer carried, and the one before the last re-registration
+	Variant, Secret, OldSecret string
 }
 
 type c18Remote struct {
 	mu     sync.Mutex
 	// the embedder's HandleGrantFunc attaches additional claims to what it grants (suite_c18_claims.go)
 	EmbedderClaims bool
+	// every client authentication method, mutual TLS, rich authorization requests (suite_c18_authn.go)
+	AllAuthn bool
 	Gen    map[int]int
 	Down   map[int]bool
 	Sector map[int]int
@@ -170,7 +175,7 @@ func c18Resp(status int, body string) *http.Response {
 func c18InstallHooks() {
 	extraProviderOpts = func(w *World) []provider.ProviderOption {
 		if !c18SpecRemote(w.Spec) {
-			return c18EmbedderClaimsOpts(w)
+			return append(c18EmbedderClaimsOpts(w), c18AuthnOpts(w)...)
 		}
 		ms := []goidc.ClientAuthnType{goidc.ClientAuthnNone, goidc.ClientAuthnPrivateKeyJWT}
 		opts := []provider.ProviderOption{
@@ -183,7 +188,7 @@ func c18InstallHooks() {
 		if c18SpecHas(w.Spec, "WithTokenRevocation") {
 			opts = append(opts, provider.WithTokenRevocation(func(*goidc.Client) bool { return w.allowed }, goidc.ClientAuthnSecretPost, ms...))
 		}
-		return append(opts, c18EmbedderClaimsOpts(w)...)
+		return append(append(opts, c18EmbedderClaimsOpts(w)...), c18AuthnOpts(w)...)
 	}
 	extraRoundTrip = func(w *World, r *http.Request) *http.Response {
 		var id int
@@ -363,6 +368,8 @@ func c18Describe(o Op) string {
 		return "a key never published"
 	}
 	switch o.Kind {
+	case c18OpDcrRegister, c18OpDcrAuthorize:
+		return c18AuthnDescribe(o)
 	case c18OpRotateKeys:
 		return fmt.Sprintf("%s: jwks_uri of client %d publishes a new key instead of the previous one", o.Kind, o.Client)
 	case c18OpJwksDown:
@@ -396,6 +403,9 @@ func c18Describe(o Op) string {
 // ---- executing a pseudo-operation ----
 func c18ExecOp(w *World, o Op) Obs {
 	if !c18IsPseudo(o) {
+		if c18AuthnOwn(w, o) {
+			return c18AuthnExec(w, o)
+		}
 		return w.Exec(o)
 	}
 	w.Stores.BeginRequest(nil, -1)
@@ -419,6 +429,8 @@ func c18ExecOp(w *World, o Op) Obs {
 		return Obs{Kind: "Ok"}
 	case c18OpDiscovery, c18OpJwks, c18OpTokenInfoJSON:
 		return c18ExecReadOnlyPseudo(w, o)
+	case c18OpDcrRegister, c18OpDcrAuthorize:
+		return c18AuthnExecPseudo(w, o)
 	case c18OpRotateKeys:
 		return set(func() { st.Gen[o.Client]++ })
 	case c18OpJwksDown:
@@ -485,7 +497,7 @@ func c18ExecOp(w *World, o Op) Obs {
 // ---- which client does an operation act for (to qualify the signature of a difference) ----
 func c18ActingClient(o Op) int {
 	switch o.Kind {
-	case "Authorize", c18OpJarAuthorize, c18OpAuthorizeByRef, c18OpDcrCreate, c18OpDcrUpdate, c18OpDcrGet:
+	case "Authorize", c18OpJarAuthorize, c18OpAuthorizeByRef, c18OpDcrCreate, c18OpDcrUpdate, c18OpDcrGet, c18OpDcrRegister, c18OpDcrAuthorize:
 		return o.Client
 	}
 	return o.Cred.ID
@@ -511,6 +523,9 @@ func c18Signature(spec WorldSpec, ops []Op, d *c18Difference) string {
 		return d.Field
 	}
 	plain := ops[d.Op].Kind + ":" + d.Field
+	if c18EmptyAuthDetailTypes(ops, d) {
+		return c18SigEmptyAuthDetailTypes
+	}
 	if d.Field == "store" || c18Execs[d.A].Fresh == c18Execs[d.B].Fresh {
 		return plain
 	}
